@@ -54,34 +54,40 @@ def is_datasize(e):
     return e is not None and e.get('k') == 'Member' and e.get('name') in ('dataSize_', 'estimateSize_') and strip_casts(e['base']).get('k') == 'This'
 
 
+PASS_THROUGH = ('col', 'array', 'matrix', 'leftCols', 'middleCols', 'rightCols', 'eval', 'noalias', 'derived')
+WHOLE_USE = ('transpose', 'adjoint', 'dot', 'sum', 'norm', 'squaredNorm', 'cwiseProduct', 'cwiseQuotient', 'asDiagonal', 'colwise', 'rowwise', 'mean', 'maxCoeff', 'minCoeff', 'rows', 'data',
+             'jacobiSvd', 'ldlt', 'llt', 'inverse', 'determinant', 'square', 'abs')
+
+
 def sliced(member, chain):
-    """True if the use is restricted to the first dataSize_ rows by its enclosing views."""
-    # climb through casts
+    """True: restricted to the first dataSize_ (or estimateSize_) rows by its enclosing views.  False: certainly used whole (the buffer
+    reaches an operator, a product or a whole-object method without any row view).  None: a view this rule does not enumerate."""
     anc = [a for a in chain if a.get('k') not in ('Cast', 'DefaultArg')]
     cur = member
     for a in reversed(anc):
-        if a.get('k') != 'MCall' or strip_casts(a['obj']) is not cur and strip_casts(strip_casts(a['obj'])) is not cur:
-            # is `cur` the object of this call?
-            obj = a.get('obj') if a.get('k') == 'MCall' else None
-            o = obj
-            while o is not None and o.get('k') in ('Cast', 'DefaultArg'):
-                o = o['e']
-            if o is not cur:
-                return False
+        obj = a.get('obj') if a.get('k') == 'MCall' else None
+        o = obj
+        while o is not None and o.get('k') in ('Cast', 'DefaultArg'):
+            o = o['e']
+        if a.get('k') != 'MCall' or o is not cur:
+            # `cur` is an operand of an operator / an argument of a call: it is used with all its rows
+            return False
         name = a.get('m')
         args = a.get('args', [])
-        if name in ('head', 'topRows') and len(args) == 1 and is_datasize(args[0]):
-            return True
-        if name == 'segment' and len(args) == 2 and const_value(args[0]) == 0 and is_datasize(args[1]):
-            return True
-        if name == 'block' and len(args) == 4 and const_value(args[0]) == 0 and is_datasize(args[2]):
-            return True
-        if name in ('topLeftCorner', 'topRightCorner') and len(args) == 2 and is_datasize(args[0]):
-            return True
-        if name in ('col', 'array', 'matrix', 'leftCols', 'middleCols', 'rightCols'):
+        if name in ('head', 'topRows') and len(args) == 1:
+            return True if is_datasize(args[0]) else None
+        if name == 'segment' and len(args) == 2:
+            return True if const_value(args[0]) == 0 and is_datasize(args[1]) else None
+        if name == 'block' and len(args) == 4:
+            return True if const_value(args[0]) == 0 and is_datasize(args[2]) else None
+        if name in ('topLeftCorner', 'topRightCorner') and len(args) == 2:
+            return True if is_datasize(args[0]) else None
+        if name in PASS_THROUGH:
             cur = a
             continue
-        return False
+        if name in WHOLE_USE:
+            return False
+        return None
     return False
 
 
@@ -180,8 +186,11 @@ def run(fx, R, tier, sv_ratio=1e-12, sv_why='with cond(J) < 1e6 (quantifier) the
                 R.used(f)
                 for (mem, chain) in uses_with_chain(f['body']):
                     inst = '%s::%s:%s' % (cname, f['name'], mem['name'])
-                    if sliced(mem, chain):
+                    sl = sliced(mem, chain)
+                    if sl:
                         R.holds('L1', inst + '@' + fx.rel(mem['loc']).split(':', 1)[1], 'restricted to the first dataSize_ rows', fx.rel(mem['loc']), 'E-STATE')
+                    elif sl is None:
+                        R.undecided('L1', inst + '@' + fx.rel(mem['loc']).split(':', 1)[1], '%s is used through a view this rule does not enumerate: `%s`' % (mem['name'], pp(chain[-1]) if chain else mem['name']))
                     else:
                         top = next((a for a in chain if a.get('k') in ('Expr', 'Return', 'Decl')), None)
                         R.violated('L1', inst + ':unsliced', '%s is used without restriction to the first dataSize_ rows in %s(): `%s` - the buffers never shrink, so after a larger problem '
